@@ -63,7 +63,17 @@ fn one(id: String, seed: u64, idx: u64, rng: &mut SplitMix64, sink: &mut Sink) {
     if pre.len() > 1 && rng.chance(1, 2) {
         pre.reverse();
     }
-    let (hint_kind, hint): (&str, Option<u32>) = match rng.below(8) {
+    // `far`: directories get clusters beyond the 4 GiB mark (the hint points near the end of the volume), and entries
+    // stored in them are written back; `root_high`: the root directory chain continues in a high cluster and its
+    // first cluster is full, so new root entries land beyond the mark as well
+    let far = m4g.is_some() && rng.chance(3, 5);
+    let root_high: Option<u32> = if m4g.is_some() && rng.chance(1, 4) {
+        let h = last - 3 - rng.below(50) as u32;
+        if pre.contains(&h) { None } else { Some(h) }
+    } else {
+        None
+    };
+    let (hint_kind, hint): (&str, Option<u32>) = match if far { rng.below(2) } else { rng.below(8) } {
         0 => ("last-1", Some(last - 1)),
         1 => ("last", Some(last)),
         2 => ("last+1", Some(last + 1)),
@@ -75,14 +85,22 @@ fn one(id: String, seed: u64, idx: u64, rng: &mut SplitMix64, sink: &mut Sink) {
             None => ("last-1", Some(last - 1)),
         },
     };
-    let used = 1 + pre.len() as u32;
+    let used = 1 + pre.len() as u32 + u32::from(root_high.is_some());
     let free = geo.clusters - used;
     let mut st = Store::default();
     geo.put_reserved(&mut st, Some(free), hint);
     let mut fat: BTreeMap<u32, u32> = BTreeMap::new();
     fat.insert(0, 0x0FFF_FF00 | geo.media as u32);
     fat.insert(1, 0x0FFF_FFFF);
-    fat.insert(2, 0x0FFF_FFF8 + rng.below(8) as u32);
+    match root_high {
+        Some(h) => {
+            fat.insert(2, h);
+            fat.insert(h, 0x0FFF_FFF8 + rng.below(8) as u32);
+        }
+        None => {
+            fat.insert(2, 0x0FFF_FFF8 + rng.below(8) as u32);
+        }
+    }
     for (i, c) in pre.iter().enumerate() {
         let v = if i + 1 < pre.len() { pre[i + 1] } else { 0x0FFF_FFFF };
         fat.insert(*c, v | ((rng.below(16) as u32) << 28));
@@ -106,20 +124,45 @@ fn one(id: String, seed: u64, idx: u64, rng: &mut SplitMix64, sink: &mut Sink) {
     }
     gt.push(format!("G hint {} {}", hint_kind, hint.map_or("none".to_string(), |h| h.to_string())));
     gt.push(format!("G last {} {}", last, if last_taken { "taken" } else { "free" }));
-    if pre.is_empty() {
-        gt.push("G dir - 0".to_string());
-    } else {
-        let short = *b"PREALLOCBIN";
+    {
+        // root directory: PREALLOC.BIN (if any), and with `root_high` enough empty files to fill the first cluster
         let t = Stamps { crt_tenth: 0, crt_time: 0x6000, crt_date: 0x5021, acc_date: 0x5021, wrt_time: 0x6000, wrt_date: 0x5021 };
-        // sizes are 32-bit: the file claims its full clusters unless that exceeds 4 GiB − 1
-        let size = (pre.len() as u64 * cs).min(u32::MAX as u64) as u32;
-        st.put(geo.cl_off(2), &sfn_slot(&short, 0x20, 0, &t, pre[0], size, true));
-        gt.push("G dir - 1".to_string());
-        gt.push(format!(
-            "G ent - - {} 32 {} {} 0 {} {} {} {} {} {:016x} 0",
-            hex(&short), size, pre[0], t.crt_time, t.crt_date, t.acc_date, t.wrt_time, t.wrt_date, fnv64(&[])
-        ));
-        gt.push(format!("G chain {} {}", pre[0], pre.iter().map(|c| c.to_string()).collect::<Vec<_>>().join(",")));
+        let mut slots: Vec<u8> = Vec::new();
+        let mut ents: Vec<String> = Vec::new();
+        let mut ent = |short: &[u8; 11], size: u32, fc: u32, slots: &mut Vec<u8>| {
+            slots.extend_from_slice(&sfn_slot(short, 0x20, 0, &t, fc, size, true));
+            ents.push(format!(
+                "G ent - - {} 32 {} {} 0 {} {} {} {} {} {:016x} 0",
+                hex(short), size, fc, t.crt_time, t.crt_date, t.acc_date, t.wrt_time, t.wrt_date, fnv64(&[])
+            ));
+        };
+        if !pre.is_empty() {
+            // sizes are 32-bit: the file claims its full clusters unless that exceeds 4 GiB − 1
+            let size = (pre.len() as u64 * cs).min(u32::MAX as u64) as u32;
+            ent(b"PREALLOCBIN", size, pre[0], &mut slots);
+        }
+        if root_high.is_some() {
+            let per_cluster = (cs / 32) as usize;
+            let mut i = 0;
+            while slots.len() / 32 < per_cluster {
+                let name = format!("FILL{:04}BIN", i);
+                let mut short = [b' '; 11];
+                short.copy_from_slice(name.as_bytes());
+                ent(&short, 0, 0, &mut slots);
+                i += 1;
+            }
+        }
+        if !slots.is_empty() {
+            st.put(geo.cl_off(2), &slots);
+        }
+        gt.push(format!("G dir - {}", ents.len()));
+        gt.extend(ents);
+        if !pre.is_empty() {
+            gt.push(format!("G chain {} {}", pre[0], pre.iter().map(|c| c.to_string()).collect::<Vec<_>>().join(",")));
+        }
+        if let Some(h) = root_high {
+            gt.push(format!("G chain root 2,{}", h));
+        }
     }
 
     let vol = VolCfg {
@@ -160,6 +203,9 @@ fn one(id: String, seed: u64, idx: u64, rng: &mut SplitMix64, sink: &mut Sink) {
             }
             cx.step(Op::DropF(f));
         }
+        if far || root_high.is_some() {
+            far_ops(&mut cx, rng, cs);
+        }
         if rng.chance(1, 2) {
             let d = cx.new_d();
             if cx.step(Op::CreateDir { d: 0, path: b"dir".to_vec(), new: d }).is_ok() {
@@ -176,10 +222,98 @@ fn one(id: String, seed: u64, idx: u64, rng: &mut SplitMix64, sink: &mut Sink) {
         if !cx.dead && cx.step(Op::Mount).is_ok() {
             cx.step(Op::Stats);
             cx.step(Op::List(0));
+            if far || root_high.is_some() {
+                for (dir, file) in [("far moved", "far moved/renamed inside.bin"), ("sub at top", "sub at top/deep.txt")] {
+                    let d = cx.new_d();
+                    if cx.step(Op::OpenDir { d: 0, path: dir.as_bytes().to_vec(), new: d }).is_ok() {
+                        cx.step(Op::List(d));
+                        cx.step(Op::DropD(d));
+                    }
+                    let f = cx.new_f();
+                    if cx.step(Op::OpenFile { d: 0, path: file.as_bytes().to_vec(), new: f }).is_ok() {
+                        cx.step(Op::ReadAll(f));
+                        cx.step(Op::Extents(f));
+                        cx.step(Op::DropF(f));
+                    }
+                }
+                let d = cx.new_d();
+                if cx.step(Op::OpenDir { d: 0, path: b"sub at top/..".to_vec(), new: d }).is_ok() {
+                    cx.step(Op::DropD(d));
+                }
+                let f = cx.new_f();
+                if cx.step(Op::OpenFile { d: 0, path: b"root file.txt".to_vec(), new: f }).is_ok() {
+                    cx.step(Op::ReadAll(f));
+                    cx.step(Op::DropF(f));
+                }
+            }
             cx.step(Op::Unmount);
         }
     }
     cx.finish(sink);
+}
+
+/// Directories (and, with a full first root cluster, root entries) beyond the 4 GiB mark, with entry write-backs.
+fn far_ops(cx: &mut Ctx, rng: &mut SplitMix64, cs: u64) {
+    let p = |s: &str| s.as_bytes().to_vec();
+    let d = cx.new_d();
+    if !cx.step(Op::CreateDir { d: 0, path: p("far"), new: d }).is_ok() {
+        return;
+    }
+    cx.step(Op::DropD(d));
+    // a file in the root too (its entry lies in the high root cluster when the first one is full)
+    let f = cx.new_f();
+    if cx.step(Op::CreateFile { d: 0, path: p("root file.txt"), new: f }).is_ok() {
+        cx.step(Op::WriteAll { f, data: content(rng, 33) });
+        cx.step(Op::DropF(f));
+    }
+    let f = cx.new_f();
+    if cx.step(Op::CreateFile { d: 0, path: p("far/inside file.bin"), new: f }).is_ok() {
+        let n = (cs + cs / 2) as usize;
+        cx.step(Op::WriteAll { f, data: content(rng, n) });
+        cx.step(Op::Flush(f));
+        cx.step(Op::DropF(f));
+    }
+    // reopen + extend
+    let f = cx.new_f();
+    if cx.step(Op::OpenFile { d: 0, path: p("far/inside file.bin"), new: f }).is_ok() {
+        cx.step(Op::Seek { f, whence: Whence::End, n: 0 });
+        cx.step(Op::WriteAll { f, data: content(rng, 100) });
+        cx.step(Op::DropF(f));
+    }
+    // truncate
+    let f = cx.new_f();
+    if cx.step(Op::OpenFile { d: 0, path: p("far/inside file.bin"), new: f }).is_ok() {
+        cx.step(Op::Seek { f, whence: Whence::Start, n: cs as i64 + 5 });
+        cx.step(Op::Truncate(f));
+        cx.step(Op::Flush(f));
+        cx.step(Op::SetModified { f, t: crate::script::Stamp { y: 2001, m: 2, d: 3, h: 4, mi: 5, s: 6, ms: 0 } });
+        cx.step(Op::DropF(f));
+    }
+    cx.step(Op::Rename { d: 0, src: p("far/inside file.bin"), d2: 0, dst: p("far/renamed inside.bin") });
+    // a directory inside, with a file; then it moves to the root (its `..` entry is rewritten in its own cluster)
+    let d = cx.new_d();
+    if cx.step(Op::CreateDir { d: 0, path: p("far/sub"), new: d }).is_ok() {
+        cx.step(Op::DropD(d));
+        let f = cx.new_f();
+        if cx.step(Op::CreateFile { d: 0, path: p("far/sub/deep.txt"), new: f }).is_ok() {
+            cx.step(Op::WriteAll { f, data: content(rng, 9) });
+            cx.step(Op::DropF(f));
+        }
+    }
+    cx.step(Op::Rename { d: 0, src: p("far"), d2: 0, dst: p("far moved") });
+    cx.step(Op::Rename { d: 0, src: p("far moved/sub"), d2: 0, dst: p("sub at top") });
+    let d = cx.new_d();
+    if cx.step(Op::OpenDir { d: 0, path: p("far moved"), new: d }).is_ok() {
+        cx.step(Op::List(d));
+        cx.step(Op::DropD(d));
+    }
+    let f = cx.new_f();
+    if cx.step(Op::OpenFile { d: 0, path: p("far moved/renamed inside.bin"), new: f }).is_ok() {
+        cx.step(Op::ReadAll(f));
+        cx.step(Op::Extents(f));
+        cx.step(Op::DropF(f));
+    }
+    cx.step(Op::Stats);
 }
 
 pub fn run(tier: Tier, seed: u64, rng: &mut SplitMix64, n_override: Option<u64>, sink: &mut Sink) {
